@@ -260,6 +260,14 @@ func directOf(ty string) string {
 }
 
 func genCase(r *kit.Rand, i int, thorough bool) []string {
+	if i%40 == 39 { // a lambda node nested in the expression, asked by one or several groups
+		lines := []string{"lam " + strconv.Itoa(r.Intn(4))}
+		groups := 1 + r.Intn(3)
+		for j := 2 + r.Intn(7); j > 0; j-- {
+			lines = append(lines, "lev "+strconv.Itoa(r.Intn(groups)))
+		}
+		return lines
+	}
 	g := &gen{r: r, used: map[string]bool{}}
 	var e *ex
 	ty := kit.Pick(r, allTys)
